@@ -363,6 +363,9 @@ def run(ctx: Context, rep) -> None:
            message="the consistency check looks at the committed state")
     from sa.rules import shared
     shared.check_no_memo(ctx, rep, "C05.memo")
+    # the verifier hashes exactly the file's bytes (same check as C16.feed)
+    from sa.rules import shared as _sh05
+    _sh05.share_rules(ctx, rep, "c16", {"C16.feed": "C05.feed"})
     from sa.rules import shared as _shl
     _shl.check_log_args_pure(ctx, rep, "C05.log")
     # the "current" digests of the description are computed now, from the file
